@@ -1,5 +1,5 @@
 PROP = {
-    "groups": ["pausemodel", "e2e-pause"],
+    "groups": ["pausemodel", "pausecomp", "e2e-pause"],
     "timeout": 900,
     "nontrivial_floor": 0.02,
     "rule": "pausemodel: the REAL recvCheckV2 and checkStopAndPause of a real trzszTransfer (Timeout 1 s, protocol 2/3/4) are driven "
@@ -10,6 +10,9 @@ PROP = {
             "flag, the time of return (+-80 ms) and the number of keep-alive lines written are compared with the extracted model on the "
             "same schedule; schedules keep every event >= 20 ms away from any timer or sleep expiry so that jitter cannot flip an "
             "outcome; non-trivial = the schedule contains a pause, a stop or a keep-alive; distinct = distinct schedule. "
+            "pausecomp: random schedules (moves of the four goroutines, ticks, pauses, resumes; T 3..14 ticks, sleeps 1..3, window 1/2/5, "
+            "0..13 frames, pause budgets below and above the bound) run through BOTH extracted composition machines (the one built from the reader "
+            "machine and the abstraction the theorem is proved for): same enabledness and abs_of(concrete) = abstract after every step. "
             "e2e-pause: real client (filter) vs real trz/tsz children, Ctrl-C typed at a sampled write boundary of either direction, "
             "'Continue' chosen after 0.3-3.5 s, 1-2 cycles, upload/download x base64/binary x protocol 3/4 x directory; oracles: no "
             "hang, success => identical trees, a pause clearly shorter than the timeout does not end in an error, no DATA frame "
